@@ -50,9 +50,9 @@ type Obs struct {
 	Toks   []Tok       `json:"toks,omitempty"`
 	Errs   []string    `json:"errs,omitempty"`
 	Ok     bool        `json:"ok"`
-	Out    []int       `json:"out,omitempty"`   // output text as runes
+	Out    []int       `json:"out,omitempty"`    // output text as runes
 	OutHex string      `json:"outhex,omitempty"` // output bytes when not valid UTF-8
-	Res    string      `json:"res,omitempty"`   // unmarshal: ok | err | json | more
+	Res    string      `json:"res,omitempty"`    // unmarshal: ok | err | json | more
 	First  string      `json:"first,omitempty"`
 	Items  [][2][]int  `json:"items,omitempty"` // series: (type name bytes, json runes)
 	Strs   [][]int     `json:"strs,omitempty"`  // shell tokens (bytes)
@@ -66,16 +66,18 @@ type Obs struct {
 }
 
 type Case struct {
-	I      int         `json:"i"`
-	Stream string      `json:"stream"`
-	Op     string      `json:"op"`
-	In     string      `json:"in"`             // input bytes, hex
-	Src    string      `json:"src,omitempty"`  // printable copy of the input
-	Want   string      `json:"want,omitempty"` // canonical intended value
-	Known  []string    `json:"known,omitempty"`
-	Reject bool        `json:"reject,omitempty"` // the input must be rejected
-	PV     interface{} `json:"pv,omitempty"`     // print: the value tree
-	Obs    *Obs        `json:"obs,omitempty"`
+	I       int         `json:"i"`
+	Stream  string      `json:"stream"`
+	Op      string      `json:"op"`
+	In      string      `json:"in"`             // input bytes, hex
+	Src     string      `json:"src,omitempty"`  // printable copy of the input
+	Want    string      `json:"want,omitempty"` // canonical intended value
+	Known   []string    `json:"known,omitempty"`
+	Reject  bool        `json:"reject,omitempty"`  // the input must be rejected
+	Plain   bool        `json:"plain,omitempty"`   // the input is a valid RFC 8259 text
+	Reasons []string    `json:"reasons,omitempty"` // documented reasons for JSONx to reject it
+	PV      interface{} `json:"pv,omitempty"`      // print: the value tree
+	Obs     *Obs        `json:"obs,omitempty"`
 
 	goVal interface{} // print: the Go value (not serialised)
 }
